@@ -111,6 +111,16 @@ def run_poly(spec, rec, dadi, Numerics, seed):
         # ... the other half has entries of either sign, and entries whose limit has the opposite sign from their finest-grid
         # value: nothing in the documented rule ("more than fail_mag decades away") makes those fall back
         mixed_sign = (not log) and ci % 2 == 1
+        int_x = (not realx) and (not carry_x) and ci % 3 == 0
+        if int_x:
+            # the documented type of extrap_x_l is a list of numbers: whole numbers given as Python ints are as good as floats
+            ints = sorted(int(v) for v in rng.choice(np.arange(3, 40), size=k, replace=False))[::-1]
+            xmap = {p: int(x) for p, x in zip(pts_l, ints)}
+            coefs = [rng.normal(size=shape) * amp / (float(max(ints)) ** d) for d in range(k)]
+            if log:
+                coefs = [c / amp * 3 for c in coefs]
+            elif ci % 2 == 0:
+                coefs[0] = np.abs(coefs[0]) + amp * (k + 1)
         pop_ids = ["pop %d" % i for i in range(len(shape))] if as_spectrum else None
         perm = [int(i) for i in rng.permutation(k)]
         desc = {"k": k, "log": log, "spectrum": as_spectrum, "carry_x": carry_x, "realx": realx,
@@ -122,7 +132,7 @@ def run_poly(spec, rec, dadi, Numerics, seed):
         model = _make_model(dadi, xmap, coefs, log, as_spectrum, carry_x, pop_ids, calls)
         x_l = None if carry_x else [xmap[p] for p in pts_l]
         mk = Numerics.make_extrap_log_func if log else Numerics.make_extrap_func
-        tags = {"k": k, "log": log, "mixed_sign": mixed_sign}
+        tags = {"k": k, "log": log, "mixed_sign": mixed_sign, "int_x": int_x}
         site = "make_extrap_log_func" if log else "make_extrap_func"
         ok, got = rec.noraise("extrap-returns", lambda: mk(model, extrap_x_l=x_l)(1.0, pts_l), site=site, tags=tags)
         rec.hit("arm-k%d" % k)
@@ -200,10 +210,12 @@ def run_failmag(spec, rec, dadi, Numerics, seed):
         if not rec.case("fm-%d" % ci, desc):
             continue
         calls = []
-        model = _make_model(dadi, xmap, coefs, log, False, False, None, calls)
+        as_spec = ci % 2 == 1
+        ids_fm = ["only pop"] if as_spec else None
+        model = _make_model(dadi, xmap, coefs, log, as_spec, False, ids_fm, calls)
         x_l = [xmap[p] for p in pts_l]
         site = "make_extrap_func"
-        tags = {"k": k, "log": log}
+        tags = {"k": k, "log": log, "spectrum": as_spec}
         if log and fail_mag != 10:
             fail_mag = 10.0  # make_extrap_log_func exposes no fail_mag
         ok, got = rec.noraise("extrap-returns",
@@ -211,7 +223,12 @@ def run_failmag(spec, rec, dadi, Numerics, seed):
                               site=site, tags=tags)
         if not ok:
             continue
-        got = np.asarray(got, dtype=float)
+        if as_spec:
+            # falling back is per entry: the result stays a Spectrum with its labels and (here: empty) mask
+            rec.check("fallback-keeps-spectrum", isinstance(got, dadi.Spectrum) and getattr(got, "pop_ids", None) == ids_fm
+                      and not np.asarray(np.ma.getmaskarray(got)).any(), site=site, tags=tags,
+                      observed={"type": type(got).__name__, "pop_ids": getattr(got, "pop_ids", None)})
+        got = np.asarray(np.ma.getdata(got), dtype=float)
         fell = np.abs(dec) > fail_mag
         expect = np.where(fell, best, exact)
         # entries that stay extrapolated carry the cancellation error of the Lagrange sum
